@@ -25,7 +25,7 @@ def option_sets(engines=ENGINES, full=False):
     return out
 
 
-def actions(level="std"):
+def actions(level="std", nested=False):
     """(label, needs(cols) -> bool, make(child, opts, i) -> node) - parameters are named by step index i."""
     acts = []
 
@@ -53,6 +53,10 @@ def actions(level="std"):
     plain("mat", lambda c: True, lambda ch, o, i: ("mat", ch))
     for e in ENGINES:
         plain(f"to {e}", lambda c: True, lambda ch, o, i, e=e: ("xfer", ch, e))
+    if nested:
+        # engine-restricted functions nested inside unrestricted nodes
+        un("calc e=-it(a)+b", lambda c: {"a", "b"} <= c and "e" not in c, lambda ch, o, i: ("calc", ch, "e", ("add", ("rneg", A, "it"), B), o))
+        un("sel not(b>sq a)", lambda c: {"a", "b"} <= c, lambda ch, o, i: ("sel", ch, ("not", ("rgt", B, A, "sq")), o))
     if level == "full":
         un("calc c=a+b", lambda c: {"a", "b"} <= c and "c" not in c, lambda ch, o, i: ("calc", ch, "c", ("add", A, B), o))
         un("sel false", lambda c: True, lambda ch, o, i: ("sel", ch, ("plit", False), o))
